@@ -13,9 +13,25 @@ import SfntV.Model.CffRead
 namespace SfntV.Drive.Cff
 open SfntV SfntV.Cff
 
-/-- a blob: hex, `-` (empty) or `z<n>` (n zero bytes) -/
+/-- `n` pseudo-random bytes from `seed` (the harness expands the same recurrence) -/
+def prngBytes (n seed : Nat) : Bytes := Id.run do
+  let mut a : Array UInt8 := Array.mkEmpty n
+  let mut x := seed
+  for _ in [0:n] do
+    x := (x * 1103515245 + 12345) % 2147483648
+    a := a.push (UInt8.ofNat (x / 65536 % 256))
+  return a.toList
+
+/-- rolling checksum of a byte string -/
+def bytesSum (b : Bytes) : Nat := b.foldl (fun h x => (h * 31 + x.toNat) % 4294967296) 7
+
+/-- a blob: hex, `-` (empty), `z<n>` (n zero bytes) or `p<n>:<seed>` (n pseudo-random bytes) -/
 def parseBlob (s : String) : Option Bytes :=
   if s == "-" then some []
+  else if s.startsWith "p" then
+    match ((s.drop 1).toString).splitOn ":" with
+    | [n, sd] => do pure (prngBytes (← n.toNat?) (← sd.toNat?))
+    | _ => none
   else if s.startsWith "z" then (s.drop 1).toString.toNat?.map fun n => List.replicate n 0
   else fromHex s
 
@@ -246,6 +262,20 @@ def handle (op : String) (fs : List (String × String)) : String :=
     | some bl =>
       showOutcome (fun b => s!"{toHex (b.take (b.length - bodyLength bl))};len={b.length}") (indexEncode bl)
     | none => "bad-case"
+  else if op == "cff.index.encsum" then
+    match (getField fs "blobs").bind parseBlobs with
+    | some bl => showOutcome (fun b => s!"len={b.length};sum={bytesSum b}") (indexEncode bl)
+    | none => "bad-case"
+  else if op == "cff.index.readsum" then
+    -- the INDEX is built by the model encoder, preceded by `pre` zero bytes, and read back
+    match (getField fs "blobs").bind parseBlobs, nat "pre" with
+    | some bl, some k =>
+      match indexEncode bl with
+      | .ok enc =>
+        showOutcome (fun r => s!"n={r.1.length};lens={bytesSum (r.1.flatMap fun b => [UInt8.ofNat b.length, UInt8.ofNat (b.length / 256)])};sum={bytesSum r.1.flatten};pos={r.2}")
+          (readIndex (List.replicate k 0 ++ enc ++ [1, 2, 3]) k)
+      | _ => "enc-failed"
+    | _, _ => "bad-case"
   else if op == "cff.index.read" then
     match data, nat "pos" with
     | some d, some c => showOutcome (fun r => s!"{showBlobs r.1};pos={r.2}") (readIndex d c)
